@@ -2,6 +2,7 @@ package main
 
 import (
 	"fmt"
+	"math"
 	"os"
 	"strings"
 
@@ -417,6 +418,51 @@ func (s *Sys) exec1(toks []string) string {
 			return rInt(v)
 		case "replaycs":
 			return s.execReplay(len(toks) > 1 && toks[1] == "hash")
+		case "cost", "hbound":
+			var it *iavl.ImmutableTree
+			if toks[1] == "w" {
+				it = t.ImmutableTree
+			} else {
+				im, err := t.GetImmutable(atoi(toks[1][1:]))
+				if err != nil {
+					return "err"
+				}
+				it = im
+			}
+			h, n := int(it.Height()), it.Size()
+			if toks[0] == "hbound" {
+				// AVL bound h <= 1.4405 * log2(n + 2)
+				if float64(h) <= 1.4405*math.Log2(float64(n)+2) {
+					return "hb(ok)"
+				}
+				return fmt.Sprintf("hb(viol,h=%d,n=%d)", h, n)
+			}
+			if s.hooks == nil {
+				return "ct(nowrap)"
+			}
+			var imm *iavl.ImmutableTree
+			if toks[1] != "w" {
+				imm = it
+			}
+			s.hooks.gets = 0
+			res := s.execRead(imm, toks[2:])
+			g := s.hooks.gets
+			bound := 2*h + 2
+			if toks[2] == "gproof" || toks[2] == "proof" {
+				bound = 10*h + 10
+			}
+			if strings.HasPrefix(res, "err") && n == 0 {
+				return "ct(ok)" // no proof on an empty tree
+			}
+			if strings.HasPrefix(res, "err") || strings.HasPrefix(res, "panic") {
+				return "ct(readfailed)"
+			}
+			if g <= bound {
+				return "ct(ok)"
+			}
+			return fmt.Sprintf("ct(viol,reads=%d,h=%d,bound=%d)", g, h, bound)
+		case "expimp":
+			return s.execExportImport(atoi(toks[1]), toks[2], atoi(toks[3]))
 		case "audit":
 			if toks[1] == "nodes" {
 				return s.auditNodes()
